@@ -188,7 +188,7 @@ def gen_case(S, tier, prop, force=None):
                 lo, hi = lim
                 r_ = rng.random()
                 if hi is not None and r_ < 0.4:
-                    xs.append(int(hi - rng.randint(0, 1)))
+                    xs.append(max(int(lo or 0), 0, int(hi - rng.randint(0, 1))))
                 elif r_ < 0.7:
                     xs.append(int((lo or 0) + rng.randint(0, 2)))
                 else:
